@@ -350,4 +350,4 @@ def strategy():
 
 
 def tests(tier):
-    return [Test("wipe", strategy(), run_wipe, {"quick": 8000, "thorough": 160000}, CFG)]
+    return [Test("wipe", strategy(), run_wipe, {"quick": 20000, "thorough": 200000}, CFG)]
